@@ -188,7 +188,7 @@ fn gen_input(r: &mut Rng, maxlen: usize) -> (Vec<u8>, &'static str) {
             (encode(&ends, &tail, Some(k.min(tail.len()))), "exhausted_in_pieces")
         }
         6 => {
-            let n = r.usize(1, 10);
+            let n = if r.chance(0.3) { r.usize(17, 80) } else { r.usize(1, 10) };
             let e = r.mixed(3.0);
             let ends: Vec<f64> = (0..n).map(|_| if r.chance(0.6) { e } else { r.mixed(3.0) }).filter(|x| x.is_normal()).collect();
             (encode(&ends, &tail, None), "duplicate_ends")
@@ -228,7 +228,7 @@ pub const FLOORS: &[&str] = &[
     "input:random_bytes", "input:empty_list", "input:one_non_normal_end", "input:descending_ends", "input:thousand_ends",
     "input:exhausted_in_pieces", "input:duplicate_ends", "input:extreme_ends", "input:truncated_in_ends", "input:well_formed",
     "result:Err:IncorrectFormat", "result:Err:NotEnoughData", "result:Ok:len_1", "result:Ok:len_2-9", "result:Ok:len_100+",
-    "evaluated_functions", "result_with_duplicate_ends",
+    "evaluated_functions", "result_with_duplicate_ends", "entry:arbitrary_take_rest",
 ];
 
 pub fn run(a: &Args, m: &mut Mon) {
@@ -249,6 +249,15 @@ pub fn run(a: &Args, m: &mut Mon) {
                 let res = guard(|| <Piecewise<$t>>::arbitrary(&mut Unstructured::new(&bytes)));
                 check_result::<$t>(m, $name, class, &bytes, res, |m, pw| eval_paths(m, $name, pw));
                 m.count(&format!("piece_type:{}", $name));
+                if k % 3 == 0 {
+                    // the by-value entry point of the same trait impl (defaults to `arbitrary`, may be overridden)
+                    let res = guard(|| <Piecewise<$t>>::arbitrary_take_rest(Unstructured::new(&bytes)));
+                    m.count("entry:arbitrary_take_rest");
+                    check_result::<$t>(m, $name, class, &bytes, res, |m, pw| eval_paths(m, $name, pw));
+                    if let Err(p) = guard(|| <Piecewise<$t>>::size_hint(0)) {
+                        m.panic("Arbitrary::size_hint panic", &p, || json!({"type": $name}));
+                    }
+                }
             }};
         }
         match k % 12 {
